@@ -201,6 +201,113 @@ def gen_body(rng, static, maxdepth):
         body = near_miss(body, rng, static)
     return body
 
+# ------------------------------------------------------------------ systematic family: arm-exit combinations inside loops
+# For every loop kind x nesting depth 1-3 x branching form, the arms of an if/else, an else-if chain or a match leave by
+# return / break / continue / fall-through; two thirds of the bodies are forced to "every arm exits and some arm breaks",
+# i.e. the loop is left only through a `break` sitting in an all-exiting conditional.  With nothing (or only a simple
+# statement) after the loop such a body must be rejected; with a trailing return it must be accepted and is executed.
+FAM_LOOPS = ["while_true", "while_cond", "while_const", "for"]
+FAM_FORMS = ["if_else", "else_if", "match_default", "match_nodefault"]
+FAM_TRAIL = ["none", "simple", "return"]
+FAM_EXITS = ["return", "break", "continue", "fall"]
+FAM_COMBOS = [(lk, dep, form) for lk in FAM_LOOPS for dep in (1, 2, 3) for form in FAM_FORMS]
+
+def family_body(rng, idx):
+    """returns (body, tag dict)"""
+    lk, dep, form = FAM_COMBOS[idx % len(FAM_COMBOS)]
+    trail = FAM_TRAIL[(idx // len(FAM_COMBOS) + idx) % 3]
+    g = Gen(rng, False, 5)
+    g.nloop += 1; lid = g.nloop
+    narms = {"if_else": 2, "else_if": rng.choice([3, 4]), "match_default": rng.choice([2, 3, 4]),
+             "match_nodefault": rng.choice([1, 2, 3])}[form]
+    if idx % 3 != 2:
+        # every arm exits, at least one by break
+        exits = [rng.choice(["return", "break", "continue"]) for _ in range(narms)]
+        exits[rng.randrange(narms)] = "break"
+    else:
+        exits = [rng.choice(FAM_EXITS) for _ in range(narms)]
+    def arm(e):
+        pre = [('simple',)] if rng.random() < 0.4 else []
+        if e == "return": return pre + [('ret', True)]
+        if e == "break": return pre + [('break',)]
+        if e == "continue": return pre + [('continue',)]
+        return pre or [('simple',)]
+    def guard():
+        return ('cnt', lid, rng.randrange(0, 2)) if rng.random() < 0.4 else ('bit', g.bit())
+    if form == "if_else":
+        br = ('if', guard(), arm(exits[0]), ('else', arm(exits[1])))
+    elif form == "else_if":
+        br = ('if', guard(), arm(exits[-2]), ('else', arm(exits[-1])))
+        for e in reversed(exits[:-2]):
+            br = ('if', guard(), arm(e), ('elif', br))
+    else:
+        arms = [(False, arm(e)) for e in exits]
+        if form == "match_default":
+            arms[-1] = (True, arms[-1][1])
+        br = ('match', g.bit(2), arms)
+    inner = [br]
+    for _ in range(dep - 1):                     # further nesting between the loop and the conditional
+        w = rng.choice(["block", "if", "if_else_ret", "match_arm"])
+        if w == "block": inner = [('block', inner)]
+        elif w == "if": inner = [('if', ('bit', g.bit()), inner, None)]
+        elif w == "if_else_ret": inner = [('if', ('bit', g.bit()), inner, ('else', [('ret', True)]))]
+        else: inner = [('match', g.bit(2), [(False, inner), (True, [('ret', True)])])]
+    if rng.random() < 0.3: inner = [('simple',)] + inner
+    if lk == "while_true":
+        loop = ('while', True, lid, g.bit(2), [('if', ('done', lid), [('ret', True)], None)] + inner)
+    elif lk == "while_cond":
+        loop = ('while', False, lid, g.bit(2), inner)
+    elif lk == "while_const":
+        loop = ('while', False, lid, 100 + rng.randint(1, 3), inner)
+    else:
+        loop = ('for', lid, g.bit(2), inner)
+    body = ([('simple',)] if rng.random() < 0.3 else []) + [loop]
+    if trail == "simple": body.append(('simple',))
+    elif trail == "return": body.append(('ret', True))
+    allexit = all(e != "fall" for e in exits) and form != "match_nodefault"
+    tag = dict(loop=lk, depth=dep, form=form, trail=trail, allexit=allexit, brk="break" in exits,
+               cont="continue" in exits)
+    return body, tag
+
+def _exit_kind(b):
+    """how a block ends, syntactically: return / break / continue / fall"""
+    if not b: return "fall"
+    k = b[-1][0]
+    return {"ret": "return", "break": "break", "continue": "continue"}.get(k, "fall")
+
+def exit_shapes(body):
+    """count conditionals (if/else, else-if chains, match) inside a loop whose every arm exits, by how they exit"""
+    out = {}
+    def note(kinds, complete):
+        if not complete or any(k == "fall" for k in kinds): return
+        key = "shape_allarms_exit_" + ("with_break" if "break" in kinds else "with_continue" if "continue" in kinds else "return_only")
+        out[key] = out.get(key, 0) + 1
+    def blk(b, inloop):
+        for s in b: st(s, inloop)
+    def chain(s):
+        kinds = [_exit_kind(s[2])]; e = s[3]
+        while e is not None and e[0] == 'elif':
+            kinds.append(_exit_kind(e[1][2])); e = e[1][3]
+        if e is None: return kinds, False
+        return kinds + [_exit_kind(e[1])], True
+    def st(s, inloop, elif_part=False):
+        k = s[0]
+        if k == 'if':
+            if inloop and not elif_part: note(*chain(s))
+            blk(s[2], inloop)
+            e = s[3]
+            if e is not None:
+                if e[0] == 'else': blk(e[1], inloop)
+                else: st(e[1], inloop, True)
+        elif k == 'while': blk(s[4], True)
+        elif k == 'for': blk(s[3], True)
+        elif k == 'match':
+            if inloop: note([_exit_kind(b) for _, b in s[2]], any(d for d, _ in s[2]))
+            for _, b in s[2]: blk(b, inloop)
+        elif k == 'block': blk(s[1], inloop)
+    blk(body, False)
+    return out
+
 # ------------------------------------------------------------------ numbering of returns, stats
 def number_returns(body):
     """replace ('ret', True) by ('ret', True, const) in walk order; returns (body, consts)"""
@@ -647,7 +754,8 @@ def main(run):
     maxdepth = 5
     run.rule = ("random structured bodies (nesting <= 5 of if/else-if/else, match +- default, while (true) +- break/continue, "
                 "for, early/bare returns, trailing code), 80% generated as all-paths-return then 40% near-miss mutated "
-                "(drop a return / else / default arm); each body in 3 positions; a case is (position, body); accepted bodies are "
+                "(drop a return / else / default arm); plus a systematic family (loop kind x depth 1-3 x if-else/else-if/match +- default, arms leaving by "
+                "return/break/continue/fall-through, +- trailing return; 2/3 with every arm exiting and some arm breaking); each body in 3 positions; a case is (position, body); accepted bodies are "
                 "executed on >= 18 argument values driving every guard")
     run.assumptions = ["guards, match scrutinees and loop counts are unconstrained in the specification (path semantics over "
                        "abstract guard outcomes): a rejected body whose falling path is infeasible is not a violation",
@@ -678,10 +786,28 @@ def main(run):
             if fn.endswith(".json"):
                 j = json.load(open(os.path.join(cdir, fn)))
                 bodies.append((_tolist(j["body"]), True, "corpus"))
-    for i in range(nbodies):
+    nfam = (len(FAM_COMBOS) * 6) if thorough else (len(FAM_COMBOS) * 3) // 2        # 72 per quick run: every combo at least once
+    fam0 = run.rng.randrange(len(FAM_COMBOS) * 3)
+    for i in range(nfam):
+        b, tag = family_body(run.rng, fam0 + i)
+        bodies.append((b, False, "family"))
+        run.count("family_bodies")
+        run.count("family_loop_" + tag["loop"]); run.count("family_depth_%d" % tag["depth"])
+        run.count("family_form_" + tag["form"]); run.count("family_trailing_" + tag["trail"])
+        if tag["allexit"] and tag["brk"]:
+            run.count("family_allarms_exit_some_break")
+            run.count("family_allarms_exit_some_break_" + tag["loop"])
+            run.count("family_allarms_exit_some_break_trailing_" + tag["trail"])
+        elif tag["allexit"]:
+            run.count("family_allarms_exit_no_break")
+        else:
+            run.count("family_some_arm_falls_through")
+    for i in range(nbodies - nfam):
         static = run.rng.random() < 0.3
         b = gen_body(run.rng, static, run.rng.choice([2, 3, 4, 5, 5]))
         bodies.append((b, static, "gen"))
+    for b, static, src in bodies:
+        for k, v in exit_shapes(b).items(): run.count(k, v)
     cases = []
     for b, static, src in bodies:
         for p in POSITIONS:
